@@ -154,7 +154,7 @@ fn encode(log: &[Ev]) -> String {
 
 /// MultiDispatcher batches have no observable end: synthesise their release right after the last
 /// event of their subtree (the earliest point at which the batch can have ended)
-fn multi_subtrees(regs: &[Reg], out: &mut Vec<(u32, Vec<u32>)>) {
+pub fn multi_subtrees(regs: &[Reg], out: &mut Vec<(u32, Vec<u32>)>) {
     for r in regs {
         if let Reg::Batch { tag, ctl, inner, .. } = r {
             if ctl.multi {
@@ -172,7 +172,7 @@ fn ev_tag(e: &Ev) -> Option<u32> {
         _ => None,
     }
 }
-fn fix_multi(log: Vec<Ev>, multis: &[(u32, Vec<u32>)]) -> Vec<Ev> {
+pub fn fix_multi(log: Vec<Ev>, multis: &[(u32, Vec<u32>)]) -> Vec<Ev> {
     let mut log = log;
     for (tag, sub) in multis {
         let mut i = 0;
